@@ -278,7 +278,7 @@ def gen_read(rng, tier, malformed=False):
 
 
 def generate(rng, tier):
-    n = 130 if tier == "quick" else 1500
+    n = 130 if tier == "quick" else 600
     out = [gen_read(rng, tier) for _ in range(n)]
     out += [gen_read(rng, tier, malformed=True) for _ in range(n // 3)]
     out += [gen_parse(rng) for _ in range(n // 2)]
